@@ -3,6 +3,8 @@ import Proofs.ParseRR
 rendered record set. -/
 namespace Model
 
+variable {Rs : RelSpec}
+
 /-! ### parser state plumbing -/
 
 theorem section_setSection (st : PState) (sec : Nat) (l : List RRset) : (st.setSection sec l).section sec = l := by
@@ -62,22 +64,30 @@ theorem SimList.mem_left {α : Type} {R : α → α → Prop} {as bs : List α} 
     · obtain ⟨b, hb, hr⟩ := ih h'
       exact ⟨b, by simp [hb], hr⟩
 
-def RRset.sim (a b : RRset) : Prop :=
-  NameEqv a.name b.name ∧ a.rdclass = b.rdclass ∧ a.rdtype = b.rdtype ∧ a.covers = b.covers ∧
-    a.deleting = b.deleting ∧ a.ttl = b.ttl ∧ SimList RData.sim a.rdatas b.rdatas
+def RRset.sim (Rs : RelSpec) (a b : RRset) : Prop :=
+  Rs.R a.name b.name ∧ a.rdclass = b.rdclass ∧ a.rdtype = b.rdtype ∧ a.covers = b.covers ∧
+    a.deleting = b.deleting ∧ a.ttl = b.ttl ∧ SimList (RData.sim Rs) a.rdatas b.rdatas
 
-theorem eqv_of_sim {a a' b b' : RData} (ha : a'.sim a) (hb : b'.sim b) : a'.eqv b' = a.eqv b := by
-  cases a <;> cases a' <;> simp [RData.sim] at ha <;> cases b <;> cases b' <;> simp [RData.sim] at hb <;>
-    simp [RData.eqv, NameEqv] at *
+theorem eqv_of_sim {a a' b b' : RData} (ha : a'.sim Rs a) (hb : b'.sim Rs b) : a'.eqv b' = a.eqv b := by
+  cases a <;> cases a' <;> simp only [RData.sim] at ha <;> (try exact ha.elim) <;>
+    cases b <;> cases b' <;> simp only [RData.sim] at hb <;> (try exact hb.elim) <;> simp only [RData.eqv]
   · rw [ha, hb]
-  · rw [ha, hb]
-  · rw [ha.1, ha.2, hb.1, hb.2]
+  · have h1 : lowerName _ = lowerName _ := Rs.toEqv ha
+    have h2 : lowerName _ = lowerName _ := Rs.toEqv hb
+    rw [h1, h2]
+  · have h1 : lowerName _ = lowerName _ := Rs.toEqv ha.2
+    have h2 : lowerName _ = lowerName _ := Rs.toEqv hb.2
+    rw [ha.1, hb.1, h1, h2]
   · obtain ⟨a1, a2, a3, a4, a5, a6, a7⟩ := ha
     obtain ⟨b1, b2, b3, b4, b5, b6, b7⟩ := hb
-    rw [a1, a2, a3, a4, a5, a6, a7, b1, b2, b3, b4, b5, b6, b7]
+    have h1 : lowerName _ = lowerName _ := Rs.toEqv a1
+    have h2 : lowerName _ = lowerName _ := Rs.toEqv a2
+    have h3 : lowerName _ = lowerName _ := Rs.toEqv b1
+    have h4 : lowerName _ = lowerName _ := Rs.toEqv b2
+    rw [h1, h2, h3, h4, a3, a4, a5, a6, a7, b3, b4, b5, b6, b7]
 
-theorem rdCovers_of_sim {rdtype : Nat} {a a' : RData} (h : a'.sim a) : rdCovers rdtype a' = rdCovers rdtype a := by
-  cases a <;> cases a' <;> simp [RData.sim] at h <;> simp [rdCovers]
+theorem rdCovers_of_sim {rdtype : Nat} {a a' : RData} (h : a'.sim Rs a) : rdCovers rdtype a' = rdCovers rdtype a := by
+  cases a <;> cases a' <;> simp only [RData.sim] at h <;> (try exact h.elim) <;> simp [rdCovers]
   rw [h]
 
 /-! ### `find_rrset` / `add` -/
@@ -144,31 +154,31 @@ theorem setSection_self (st : PState) (sec : Nat) : ({ st with cur := st.cur } :
       · simp [h0, h1, h2]
 
 /-- the record set under construction at the end of a section agrees with what has been read so far -/
-structure CurOk (cur : RRset) (owner : Name) (rdclass rdtype cov ttl : Nat) (done : List RData) : Prop where
-  name : NameEqv cur.name owner
+structure CurOk (Rs : RelSpec) (cur : RRset) (owner : Name) (rdclass rdtype cov ttl : Nat) (done : List RData) : Prop where
+  name : Rs.R cur.name owner
   rdclass : cur.rdclass = rdclass
   rdtype : cur.rdtype = rdtype
   covers : cur.covers = cov
   deleting : cur.deleting = none
   ttl : cur.ttl = ttl
-  rdatas : SimList RData.sim cur.rdatas done
+  rdatas : SimList (RData.sim Rs) cur.rdatas done
 
 /-- reading the remaining records of a record set -/
 theorem parseSection_rds (cfg : PCfg) (horg : cfg.origin = none) (hnorr : cfg.oneRRPerRRset = false)
-    (owner : Name) (rdtype rdclass ttl cov : Nat) (hown : NameOk none owner) (ht : rdtype < 65536)
+    (owner : Name) (rdtype rdclass ttl cov : Nat) (hown : NameOk Rs none owner) (ht : rdtype < 65536)
     (hc : rdclass < 65536) (httl : ttl ≤ ConstsC03.ttlClampAbove)
     (hns : rdtype ≠ ConstsC03.typeOPT ∧ rdtype ≠ ConstsC03.typeTSIG) (rest : List RData) :
     ∀ (A post : Bytes) (t : CTable) (q : Bytes × CTable) (sec count i : Nat) (st : PState) (L : List RRset)
       (cur : RRset) (done : List RData),
-      st.cur = A.length → TableSound NameEqv A t → st.section sec = L ++ [cur] →
-      CurOk cur owner rdclass rdtype cov ttl done → done ≠ [] →
-      (∀ rd ∈ rest, rd.valid ∧ shapeOf rdtype = rd.shape ∧ rdCovers rdtype rd = cov) →
+      st.cur = A.length → TableSound Rs.R A t → st.section sec = L ++ [cur] →
+      CurOk Rs cur owner rdclass rdtype cov ttl done → done ≠ [] →
+      (∀ rd ∈ rest, rd.valid Rs ∧ shapeOf rdtype = rd.shape ∧ rdCovers rdtype rd = cov) →
       (∀ rd ∈ rest, ∀ x ∈ done, x.eqv rd = false) → rest.Pairwise (fun a b => a.eqv b = false) →
       (rest ≠ [] → rdtype ∉ ConstsC03.singletons) →
       rdsExt owner rdtype rdclass ttl none A.length t rest = .ok q →
       ∃ cur', parseSection cfg false (A ++ q.1 ++ post) sec count rest.length i st =
           .ok (({ st with cur := A.length + q.1.length } : PState).setSection sec (L ++ [cur']))
-        ∧ CurOk cur' owner rdclass rdtype cov ttl (done ++ rest) ∧ TableSound NameEqv (A ++ q.1) (t ++ q.2) := by
+        ∧ CurOk Rs cur' owner rdclass rdtype cov ttl (done ++ rest) ∧ TableSound Rs.R (A ++ q.1) (t ++ q.2) := by
   induction rest with
   | nil =>
     intro A post t q sec count i st L cur done hcur hs hsec hcok _ _ _ _ _ h
@@ -207,13 +217,13 @@ theorem parseSection_rds (cfg : PCfg) (horg : cfg.origin = none) (hnorr : cfg.on
         have hadd : sectionAdd (st.section sec) owner' rdclass rdtype (rdCovers rdtype rd') none cfg.oneRRPerRRset
             (some (rd', ttl)) = L ++ [{ cur with rdatas := cur.rdatas ++ [rd'] }] := by
           rw [hsec, hnorr, rdCovers_of_sim hsim, hcov, ← hcok.rdclass, ← hcok.rdtype, ← hcok.covers, ← hcok.ttl]
-          exact sectionAdd_next L cur owner' rd' (hcok.name.trans hown'.symm) hcok.deleting hne
+          exact sectionAdd_next L cur owner' rd' ((Rs.toEqv hcok.name).trans (Rs.toEqv hown').symm) hcok.deleting hne
             (by rw [hcok.rdtype]; exact hsn) hfr
         rw [hadd] at hp
         -- the remaining records
         have hs1 := rrExt_sound owner rdtype rdclass ttl none A t rd q1 hown (RData.valid_namesOk hv) hs h1
         have hl : (A ++ q1.1).length = A.length + q1.1.length := by simp
-        have hcok1 : CurOk { cur with rdatas := cur.rdatas ++ [rd'] } owner rdclass rdtype cov ttl (done ++ [rd]) :=
+        have hcok1 : CurOk Rs { cur with rdatas := cur.rdatas ++ [rd'] } owner rdclass rdtype cov ttl (done ++ [rd]) :=
           ⟨hcok.name, hcok.rdclass, hcok.rdtype, hcok.covers, hcok.deleting, hcok.ttl, hcok.rdatas.snoc hsim⟩
         obtain ⟨cur', hp2, hcok', hs2⟩ := ih (A ++ q1.1) post (t ++ q1.2) q2 sec count (i + 1)
           (({ st with cur := A.length + q1.1.length } : PState).setSection sec (L ++ [{ cur with rdatas := cur.rdatas ++ [rd'] }]))
